@@ -75,6 +75,7 @@ type Run struct {
 	Samples    []string
 	Notes      []string
 	violSeen   map[string]int
+	OutDir     string
 }
 
 func NewRun(prop string, seed int64, tier, outDir string) *Run {
@@ -83,7 +84,7 @@ func NewRun(prop string, seed int64, tier, outDir string) *Run {
 		panic(err)
 	}
 	return &Run{Prop: prop, Seed: seed, Tier: tier, Rng: rand.New(rand.NewSource(seed)), out: f,
-		Dist: map[string]int{}, nontrivial: map[string]bool{}, violSeen: map[string]int{}}
+		Dist: map[string]int{}, nontrivial: map[string]bool{}, violSeen: map[string]int{}, OutDir: outDir}
 }
 
 // Case records one correspondence case: the request the model will be run on and what the implementation did.
@@ -154,6 +155,16 @@ func main() {
 	if len(os.Args) < 3 {
 		fmt.Println("usage: yaeh <Cxx> <outdir> [seed] [tier] | yaeh replay <Cxx> <file>")
 		os.Exit(2)
+	}
+	if os.Args[1] == "C17screen" && len(os.Args) >= 6 {
+		sd, _ := strconv.ParseInt(os.Args[2], 10, 64)
+		st, _ := strconv.Atoi(os.Args[4])
+		c17Screen(sd, os.Args[3], st, os.Args[5])
+		return
+	}
+	if os.Args[1] == "C12src" {
+		c12Src(os.Args[2])
+		return
 	}
 	if os.Args[1] == "C12child" {
 		i, _ := strconv.Atoi(os.Args[2])
